@@ -1031,9 +1031,9 @@ MAGIC_DECL = {"ident": "syn::Ident", "vis": "syn::Visibility", "generics": "syn:
               "discriminant": "Option<syn::Expr>", "fields": "darling::ast::Fields<FF>", "bounds": "Vec<syn::TypeParamBound>", "default": "Option<syn::Type>"}
 
 
-def elem_desc(name, trait, fields, attributes, forward=None, magic=(), **kw):
+def elem_desc(name, trait, fields, attributes, forward=None, magic=(), supports=None, **kw):
     d = struct_desc(name, fields, trait=trait, **kw)
-    d.update({"kind": "elem", "attributes": list(attributes), "forward": forward, "magic": list(magic)})
+    d.update({"kind": "elem", "attributes": list(attributes), "forward": forward, "magic": list(magic), "supports": supports})
     return d
 
 
@@ -1047,6 +1047,8 @@ def elem_declaration(d):
         extra.append("forward_attrs")
     elif isinstance(d["forward"], list):
         extra.append("forward_attrs(" + ", ".join(d["forward"]) + ")")
+    if d.get("supports") is not None:
+        extra.append("supports(" + ", ".join(d["supports"]) + ")")
     m = re.match(r"#\[darling\((.*?)\)\] struct", base)
     if m:
         base = base.replace(m.group(0), f"#[darling({m.group(1)}, {', '.join(extra)})] struct", 1) if extra else base
@@ -1130,7 +1132,14 @@ def elem_template(d, gen_id, mode="full"):
     else:
         # neither attributes(..) nor an effective forward_attrs: no attribute can have any effect (C08)
         w(f"    let w = W{n} {{ st: init_{n}::<{tps}>(), fwd: Seq::<Attribute>::empty() }};")
-    w(f"    let s = chk_{n}::<{tps}>(w.st);")
+    if d.get("supports") is not None:
+        # C18 (FromVariant): the variant's field list is checked against the SET of declared words, after the attribute walk and before
+        # the presence checks; a rejected shape is one more error, never a short-circuit
+        wset = "Set::<Shape>::empty()" + "".join(f".insert(Shape::{SHAPE_VARIANT[x]})" for x in d["supports"])
+        w(f"    let st1 = match variant_shape_verdict({wset}, el.fields) {{ Ok(_) => w.st, Err(e) => St{n} {{ errs: w.st.errs.push(e), ..w.st }} }};")
+        w(f"    let s = chk_{n}::<{tps}>(st1);")
+    else:
+        w(f"    let s = chk_{n}::<{tps}>(w.st);")
     w("    if s.errs.len() > 0 { Err(e_multiple(s.errs)) } else {")
     mg_inits = ", ".join(f"{k}: {E['magic'][k][1]}" for k in d["magic"])
     mg = f"Magic{n}" + (f"::<{xgs}>" if data_g else "")
@@ -1175,6 +1184,9 @@ def elem_template(d, gen_id, mode="full"):
     for x in D:
         w(x)
     w("    //@ replace R4v opt: vec![] ==> Vec::new()")
+    if d.get("supports") is not None:
+        wset = "Set::<Shape>::empty()" + "".join(f".insert(Shape::{SHAPE_VARIANT[x]})" for x in d["supports"])
+        w(f"    //@ replace R16s opt: crate::darling::util::ShapeSet::new(vec![$$]) ==> crate::darling::util::ShapeSet::new({{ let __w = vec![$1]; proof {{ assert(__w@.to_set() =~= {wset}); }} __w }})")
     if d["trait"] == "FromVariant" and "discriminant" in d["magic"]:
         w("    //@ replace R11c: __variant.discriminant.as_ref().map($$) ==> crate::discriminant_of(__variant)")
     if d["trait"] == "FromTypeParam" and "bounds" in d["magic"]:
@@ -1186,6 +1198,8 @@ def elem_template(d, gen_id, mode="full"):
     w("    //@end")
     w("}")
     out = "\n".join(o)
+    if not full_tps:
+        out = out.replace("::<>", "").replace("<>", "")
     return out
 
 
@@ -1198,6 +1212,8 @@ def quick_elems():
         elem_desc("D3", "FromDeriveInput", [f("only")], ["one"], magic=["ident"]),
         elem_desc("D4", "FromDeriveInput", [f("v", default="trait")], ["cfg_a"], forward=[], magic=["attrs", "ident"]),
         elem_desc("D8", "FromVariant", [f("a")], ["foo"], forward=["doc"], magic=["ident", "discriminant", "fields", "attrs"]),
+        elem_desc("D12", "FromVariant", [f("a"), f("b", default="trait")], ["foo"], magic=["ident", "fields"], supports=["unit", "newtype"]),
+        elem_desc("D13", "FromVariant", [], ["foo"], magic=["ident"], supports=["named"]),
         elem_desc("D9", "FromTypeParam", [f("a", default="trait")], ["foo", "bar"], forward="all", magic=["ident", "bounds", "default", "attrs"]),
         elem_desc("D6", "FromDeriveInput", [f("z", skip=True)], [], forward=[], magic=["attrs", "ident"]),
         elem_desc("D10", "FromDeriveInput", [f("z", skip=True)], [], forward="all", magic=["attrs", "ident"]),       # forward-only receivers
@@ -1208,6 +1224,7 @@ def quick_elems():
 
 
 CORPORA["elems"] = lambda tier, seed: quick_elems()
+CORPORA["variant_supports"] = lambda tier, seed: [d for d in quick_elems() if d.get("supports") is not None]
 
 
 # ================================================================================================ supports(..) validators (C18)
@@ -1273,7 +1290,19 @@ def supports_template(d, gen_id):
         w(f"    //@ replace R16 @1: ShapeSet::new(vec![$$]) ==> ShapeSet::new({{ let __v: Vec<Shape> = vec![$1]; proof {{ axiom_vec_yield(__v); assert(__v@ =~= {ew}); }} __v }})")
         w(f"    //@ replace R10: match *__body {{ ==> proof {{ lemma_set_of(struct_check, {sw}); lemma_set_of(enum_check, {ew}); lemma_empty_iff({sw}); lemma_empty_iff({ew}); }} match *__body {{")
         w("    //@ replace R6n: for variant in &data.variants ==> for variant in __it: data.variants.as_slice()")
-        w("    //@ loop 0 spec: invariant variant_errors.armed(), variant_errors.errs() =~= expected_errors(&enum_check, data.variants@.take(__it.index@ as int)),")
+        # the scaffold follows the shape of the emitted loop (the postcondition above does not): the accumulator is found by what it is,
+        # not by its name; a loop without one (e.g. `check(variant)?`) gets the invariant of a short-circuit loop
+        try:
+            emitted = open(os.path.join(GEN, gen_id + ".rs")).read()
+        except OSError:
+            emitted = ""
+        vb = emitted[emitted.find("fn __validate_body"):]
+        m = re.search(r"let mut (\w+) = crate::darling::Error::accumulator\(\);", vb)
+        if m:
+            acc = m.group(1)
+            w(f"    //@ loop 0 spec: invariant {acc}.armed(), {acc}.errs() =~= expected_errors(&enum_check, data.variants@.take(__it.index@ as int)),")
+        else:
+            w("    //@ loop 0 spec: invariant expected_errors(&enum_check, data.variants@.take(__it.index@ as int)).len() == 0,")
         w("    //@ loop 0 head: proof { assert(data.variants@.take(__it.index@ + 1).drop_last() == data.variants@.take(__it.index@ as int)); }")
         w("    //@ loop 0 after: proof { assert(data.variants@.take(data.variants@.len() as int) == data.variants@); }")
         w("    //@end")
